@@ -209,6 +209,11 @@ func streamC16(r *Rand, n int, o *Out) {
 				if strings.HasPrefix(no.name, "collapse") {
 					trig = hasConsecutiveSlashes(in) || hasConsecutiveSlashes(base) || (lerr == nil && strings.Contains(lu.Pathname(), "//"))
 				}
+				if strings.HasPrefix(no.name, "percent-encode-single") {
+					// under lax host parsing the host is percent-decoded first: "a%25x" becomes "a%x", and that lone '%' is what the
+					// option encodes (Proofs/Neutral.lean, C16_pctSingle_neutral_Statement_false). The trigger is evaluated on the lax result.
+					trig = trig || (lerr == nil && hasSinglePercent(lu.Hostname()))
+				}
 				if !trig && !sameResult(u, err, lu, lerr) {
 					orc.Fail("C16", "not-neutral:"+no.name, "option changed the result (relative to the lax parser) of an input that does not contain its trigger", tokOf())
 				}
